@@ -380,6 +380,9 @@ func c02Near(p vParam) []vParam {
 	out = append(out, q)
 	q = p
 	q.Threads = p.Threads + 1
+	if p.Threads == 255 { // uint8: the neighbour of the maximum is below it
+		q.Threads = 254
+	}
 	q.Memory = p.Memory * 2
 	out = append(out, q)
 	return out
